@@ -165,6 +165,11 @@ def q1(facts, tier):
     ok = tab.literal_only("<top>", True) or any(x["kind"] == "literal" and x["reject"] for x in tab.arms.get("<top>", []))
     yield ob(props, "Q1", "fallback:literal-differs", "pass" if ok else "violation", where(f),
              "diff_schema: schemas of different variants " + ("are reported as different" if ok else "are NOT reported as different"))
+    short = [x for fs in tab.arms.values() for x in fs if x["kind"] == "one-sided-shortcut"]
+    yield ob(props, "Q1", "no-one-sided-shortcut", "violation" if short else "pass", where(f),
+             ("diff_schema skips the remaining comparisons on a condition that looks at one operand only (" +
+              "; ".join(f"arm {x['arm']}: {x['cond']}" for x in short[:2]) + "): a difference on the other side goes unreported") if short
+             else "no accepting shortcut is taken on a one-sided condition")
     bad = sorted({(arm, p) for arm, p in ex.cond_paths if any(x in DIFF_FORBIDDEN for x in p[-1:]) or
                   (len(p) >= 2 and p[-1] == "name" and "fields" in p) or p[-1] == "Vector.1" or "schema_string.0" in p[-1]})
     if bad:
@@ -266,6 +271,10 @@ def q3(facts, tier):
     for arm in LAYOUT_LITERAL_ACCEPT:
         ok = tab.literal_only(arm, False)
         yield ob(P, "Q3", f"{arm}:literal-yes", "pass" if ok else "violation", where(f), f"arm {arm} plain yes: {ok}")
+    short = [x for fs in tab.arms.values() for x in fs if x["kind"] == "one-sided-shortcut"]
+    yield ob(P, "Q3", "no-one-sided-shortcut", "violation" if short else "pass", where(f),
+             ("layout_compatible answers yes early on a one-sided condition: " + "; ".join(f"arm {x['arm']}: {x['cond']}" for x in short[:2])) if short
+             else "no accepting shortcut is taken on a one-sided condition")
     known = set(LAYOUT_REQUIRED) | set(LAYOUT_LITERAL_REJECT) | set(LAYOUT_LITERAL_ACCEPT)
     for arm in sorted(set(tab.arms) - known):
         fs = tab.arms[arm]
